@@ -7,7 +7,7 @@ package main
 //
 // Not generated, because the unchanged tree is known to fail on them (known_findings.d/C17.txt,
 // each explored deterministically through the corpus files that contain them): c"..." / py"..."
-// literals (R1), tags of classfile fields (R2), matrix literals (R3), a command-style call
+// literals (R1), matrix literals (R3), a command-style call
 // directly followed by a blank and "}" (R4), an indexed slice literal [..][i] (R5).
 
 import (
@@ -32,7 +32,7 @@ func (g *xgen) expr(d int) string {
 	if d <= 0 {
 		return g.pick("x", "y", "1", "42", "3.14", "0x7f", "1e3", "2i", "3r", "'c'", `"s"`, "`raw`", "true", "nil", "10m", "3s", "${HOME}", "$name", `"a${x}b"`, `"$$x ${y+1}"`)
 	}
-	switch g.r.Intn(26) {
+	switch g.r.Intn(33) {
 	case 0, 1:
 		return g.expr(d-1) + g.pick(" + ", " - ", " * ", " / ", " % ", " << ", " && ", " || ", " == ", " != ", " < ", " &^ ", " | ") + g.expr(d-1)
 	case 2:
@@ -81,8 +81,67 @@ func (g *xgen) expr(d int) string {
 		return "&T{}"
 	case 24:
 		return "<-ch"
+	case 25:
+		return "make(" + g.chanType() + g.pick("", ", 1") + ")"
+	case 26:
+		return "(" + g.chanType() + ")(nil)"
+	case 27:
+		return "x.(" + g.typ() + ")"
+	case 28:
+		return "[]" + g.chanType() + "{}"
+	case 29:
+		return "func(a " + g.typ() + ") " + g.chanType() + " { return nil }"
+	case 30:
+		return g.pick("json`{\"a\": 1}`", "tpl`a = INT`", "P[int, string]{}", "f[int, string](1)", "new("+g.typ()+")")
 	default:
 		return g.expr(0)
+	}
+}
+
+// ChanType builds a channel type from its directions, outermost first ("chan ", "<-chan ", "chan<- ").
+// "chan" directly followed by "<-chan" needs parentheses (chan <-chan T is chan<- (chan T) in Go).
+func ChanType(dirs []string, elem string) string {
+	t := elem
+	for i := len(dirs) - 1; i >= 0; i-- {
+		if dirs[i] == "chan " && strings.HasPrefix(t, "<-") {
+			t = "chan (" + t + ")"
+		} else {
+			t = dirs[i] + t
+		}
+	}
+	return t
+}
+
+var chanDirs = []string{"chan ", "<-chan ", "chan<- "}
+
+// a channel type of depth 1-3 with random directions
+func (g *xgen) chanType() string {
+	d := 1 + g.r.Intn(3)
+	dirs := make([]string, d)
+	for i := range dirs {
+		dirs[i] = chanDirs[g.r.Intn(3)]
+	}
+	return ChanType(dirs, g.pick("int", "string", "T", "[]byte", "func()"))
+}
+
+func (g *xgen) typ() string {
+	switch g.r.Intn(10) {
+	case 0, 1, 2:
+		return g.chanType()
+	case 3:
+		return "[]" + g.pick("int", "string", g.chanType())
+	case 4:
+		return "map[string]" + g.pick("int", "*T", g.chanType())
+	case 5:
+		return "*T"
+	case 6:
+		return "func(a int, b ..." + g.pick("string", g.chanType()) + ") " + g.pick("error", g.chanType())
+	case 7:
+		return "[4]int"
+	case 8:
+		return "struct{ A int; B " + g.chanType() + " }"
+	default:
+		return g.pick("int", "string", "T", "interface{ M() }", "pkg.T")
 	}
 }
 
@@ -121,7 +180,7 @@ func (g *xgen) stmt(d int, ind string) string {
 			return "ch <- " + g.expr(1)
 		}
 	}
-	switch g.r.Intn(16) {
+	switch g.r.Intn(23) {
 	case 0:
 		return "if " + g.cond() + " " + g.block(d, ind) + g.pick("", " else "+g.block(d, ind))
 	case 1:
@@ -152,13 +211,25 @@ func (g *xgen) stmt(d int, ind string) string {
 		return g.id() + ", " + g.id() + " := " + g.expr(1) + ", " + g.expr(1)
 	case 14:
 		return "const " + g.id() + " = " + g.expr(1)
+	case 16:
+		return "var " + g.id() + " " + g.typ()
+	case 17:
+		return "for {\n" + ind + "\tif " + g.cond() + " {\n" + ind + "\t\t" + g.pick("break", "continue") + "\n" + ind + "\t}\n" + ind + "\t" + g.stmt(0, ind+"\t") + "\n" + ind + "}"
+	case 18:
+		return "// " + g.pick("a comment", "another") + "\n" + ind + g.stmt(0, ind)
+	case 19:
+		return "type " + g.id() + " " + g.typ()
+	case 20:
+		return "x[" + g.expr(0) + "] = " + g.expr(1) + ";;"
+	case 21:
+		return "if " + g.cond() + " {\n" + ind + "\t;\n" + ind + "}"
 	default:
 		return g.stmt(0, ind)
 	}
 }
 
 func (g *xgen) decl() string {
-	switch g.r.Intn(6) {
+	switch g.r.Intn(9) {
 	case 0:
 		return "func " + g.id() + "(a int, b ...string) (r int, err error) " + g.block(2, "")
 	case 1:
@@ -169,6 +240,12 @@ func (g *xgen) decl() string {
 		return "func (p *T) " + g.id() + "() " + g.block(1, "")
 	case 4:
 		return "var (\n\t" + g.id() + " = " + g.expr(2) + "\n\t" + g.id() + " int\n)"
+	case 5:
+		return "func " + g.id() + " = (\n\taddInt\n\taddStr\n\tfunc(a, b int) int {\n\t\treturn a + b\n\t}\n)"
+	case 6:
+		return "var " + g.id() + " P[int, " + g.typ() + "]"
+	case 7:
+		return "func " + g.id() + "(a " + g.typ() + ", b ..." + g.chanType() + ") " + g.typ() + " {\n\treturn nil\n}"
 	default:
 		return "type " + g.id() + " = []map[string]*T"
 	}
